@@ -5,6 +5,15 @@ import vlib
 from props import btreelib as bt
 
 PROPS = "Properties_C02"
+# leaf functions / constants of btree.c are re-translated from the C source on every run (tools/translate_leaf.py ->
+# coq/gen/Leaf.v, Constants.v) and re-proved equal to the model's (coq/Properties_leaf_btree.v)
+EXTRA_PROPS = ["Properties_leaf_btree"]
+
+
+def REGEN(ctx):
+    vlib.regen_leaf(ctx, ["BTree"])
+
+
 RULE = ("tree states built by random insert/remove histories at page sizes 64/128/256/4096; per state: lower_bound "
         "with the tree comparator and with a wildcard comparator (key/16) for every stored key and every gap "
         "(below min .. above max), suffix walks from lower bounds, iter_equals on sampled position pairs; and for "
